@@ -169,11 +169,43 @@ pub fn bspldnev_single_dual2(
 
 /// A piecewise polynomial spline of given order and knot sequence.
 #[derive(Clone, Debug, Deserialize, Serialize)]
+#[serde(try_from = "PPSplineDataModel<T>")]
 pub struct PPSpline<T> {
     k: usize,
     t: Vec<f64>,
     c: Option<Array1<T>>,
     n: usize,
+}
+
+#[derive(Deserialize)]
+struct PPSplineDataModel<T> {
+    k: usize,
+    t: Vec<f64>,
+    c: Option<Array1<T>>,
+    n: usize,
+}
+
+impl<T> std::convert::TryFrom<PPSplineDataModel<T>> for PPSpline<T> {
+    type Error = String;
+
+    fn try_from(model: PPSplineDataModel<T>) -> Result<Self, Self::Error> {
+        let sorted = model.t.iter().zip(model.t.iter().skip(1)).all(|(a, b)| b >= a);
+        if model.t.len() < 2 || !sorted {
+            return Err("`t` must be a non-decreasing knot sequence.".to_string());
+        }
+        if model.k < 1 || model.t.len().checked_sub(model.k) != Some(model.n) {
+            return Err("`k`, `t` and `n` must satisfy n = len(t) - k.".to_string());
+        }
+        if model.c.as_ref().is_some_and(|c| c.len() != model.n) {
+            return Err("`c` must have length n.".to_string());
+        }
+        Ok(PPSpline {
+            k: model.k,
+            t: model.t,
+            c: model.c,
+            n: model.n,
+        })
+    }
 }
 
 impl<T> PPSpline<T> {
